@@ -126,8 +126,73 @@ def exact_cases(tier):
             yield dict(near=near, crossed="exact:alignment:%s%s" % (c["l1"], c["l2"]), ts=[list(m)])
 
 
+MODRES_FILES_Q = ["1ehz-assembly-1.cif"]
+MODRES_FILES_T = MODRES_FILES_Q + ["8btk_B7.cif", "1E7K_1_C_modified.cif"]
+PARENT = {"2MG": "G", "M2G": "G", "OMG": "G", "7MG": "G", "YYG": "G", "1MA": "A", "H2U": "U", "5MU": "U", "PSU": "U", "OMC": "C", "5MC": "C", "OMU": "U", "4SU": "U", "A23": "A", "GTP": "G", "5BU": "U"}
+
+
+def modres_cases(tier):
+    """The same atoms with the records that declare modified residues: PDB text with MODRES records, mmCIF text with a _pdbx_struct_mod_residue category, mmCIF
+    text without it. The declared parent is the true parent, so the declaration adds no information the atoms do not carry: the annotation is the same."""
+    for f in (MODRES_FILES_Q if tier == "quick" else MODRES_FILES_T):
+        yield dict(file=f, modres=True)
+
+
+def run_modres(case):
+    t = abstract_of(dict(file=case["file"]))
+    mods = []
+    for ident, atoms in corpus.residues(t):
+        if ident[4] in PARENT and (ident[1], ident[2], ident[3], ident[4]) not in mods:
+            mods.append((ident[1], ident[2], ident[3], ident[4]))
+    if not mods or not corpus.pdb_expressible(t):
+        return dict(nontrivial=False, outcome="no-modified-residues-or-not-pdb-expressible", violations=[])
+    V = lambda x: ("v", str(x))
+    N = lambda x: ("n", x)
+    ld = any(a["icode"] for a in t)
+    rows = [(V(k + 1), V(ch), V(rn), V(num), V(ch), V(rn), V(num), V(ic) if ic else N("?"), V(PARENT[rn]), V("MODIFIED NUCLEOTIDE")) for k, (ch, num, ic, rn) in enumerate(mods)]
+    extra = {"pdbx_struct_mod_residue": (["id", "label_asym_id", "label_comp_id", "label_seq_id", "auth_asym_id", "auth_comp_id", "auth_seq_id", "PDB_ins_code", "parent_comp_id", "details"], rows)}
+    modres = "".join("MODRES VERI %3s %1s %4d%1s %3s  MODIFIED NUCLEOTIDE\n" % (rn, ch, num, ic or " ", PARENT[rn]) for ch, num, ic, rn in mods)
+    texts = {
+        "mmCIF": enumio.emit_cif(t, label_differs=ld),
+        "mmCIF+mod_residue": enumio.emit_cif(t, label_differs=ld, extra_categories=extra) if not ld else None,
+        "PDB": enumio.emit_pdb(t),
+        "PDB+MODRES": modres + enumio.emit_pdb(t),
+    }
+    from rnapolis.parser import read_3d_structure
+
+    out = []
+    ds = {}
+    for name, text in texts.items():
+        if text is None:
+            continue
+        path = os.path.join(scratch_dir(), "c05m." + ("pdb" if name.startswith("PDB") else "cif"))
+        with open(path, "w") as f:
+            f.write(text)
+
+        def go():
+            with open(path) as f:
+                return digest(read_3d_structure(f, None))
+
+        r = observe(go)
+        if r[0] == "exc":
+            out.append(viol("modres:%s:%s" % (name, r[1]), "reading / annotating the %s text raised %s" % (name, r[2])))
+        else:
+            ds[name] = r[1]
+    base = ds.get("mmCIF")
+    for name, d in ds.items():
+        if base is None or name == "mmCIF":
+            continue
+        for k in base:
+            if not same_value(k, base[k], d[k]):
+                a, b = base[k], d[k]
+                diff = ([x for x in a if x not in b][:2], [x for x in b if x not in a][:2]) if isinstance(a, list) else (str(a)[:200], str(b)[:200])
+                out.append(viol("modres:differs:%s:%s" % (name, k), "%s: the %s text (modified residues declared with their true parents) gives another %s than the plain mmCIF text: %s vs %s" % (case["file"], name, k, diff[0], diff[1])))
+                break
+    return dict(nontrivial=True, key=[case["file"], "modres"], outcome="modres %s" % ("same" if not out else "DIFF"), violations=out)
+
+
 def families(tier):
-    return [("transformations", lambda: cases(tier), 32), ("near-threshold", lambda: near_cases(tier), 64), ("exact-alignment", lambda: exact_cases(tier), 32),
+    return [("modres-format", lambda: modres_cases(tier), 1), ("transformations", lambda: cases(tier), 32), ("near-threshold", lambda: near_cases(tier), 64), ("exact-alignment", lambda: exact_cases(tier), 32),
             ("altloc-format", lambda: altloc_cases(tier), 8)]
 
 
@@ -459,6 +524,8 @@ def run_altloc(case):
 
 
 def run_case(case):
+    if case.get("modres"):
+        return run_modres(case)
     if "near" in case:
         return run_near(case)
     if "altloc" in case:
